@@ -31,7 +31,7 @@ def check(ctx, run):
     for e in entry:
         b = f.bodies.get(e)
         if b is None:
-            run.violation('R15.1', e, 'funnel', 'entry point not found (anchor lost)')
+            run.undecided('R15.1', e, 'funnel', 'entry point not found (anchor lost)')
             continue
         n += 1
         bad = sorted({canon(callee_name(t)) for _, t in b.calls() if not called(callee_name(t), *allowed)})
@@ -41,7 +41,7 @@ def check(ctx, run):
     for m in ('select', 'exists', 'predicate_match'):
         b = f.bodies.get(SEL + m)
         if b is None:
-            run.violation('R15.1', SEL + m, 'funnel', 'method not found (anchor lost)')
+            run.undecided('R15.1', SEL + m, 'funnel', 'method not found (anchor lost)')
             continue
         fp = [t for _, t in b.calls() if called(callee_name(t), 'Selector::find_positions')]
         ok = len(fp) == 1
@@ -132,7 +132,7 @@ def check(ctx, run):
         (run.proved if ok else run.violation)('R15.2', b.path, 'mode[Mixed]', 'one array for >= 2 items, the items themselves for 0 or 1' if ok else
                                                f'mixed mode builds an array for counts {arr} and separate values for counts {val}; it must be [2,inf) and [0,1]', loc)
     else:
-        run.violation('R15.2', SEL + 'select', 'table', 'method not found (anchor lost)')
+        run.undecided('R15.2', SEL + 'select', 'table', 'method not found (anchor lost)')
     # ---- R15.3 offsets and entry words
     buffers.r17_5(ctx, run, rule='R15.3')
     b = f.bodies.get(SEL + 'build_scalar_array')
